@@ -233,7 +233,7 @@ fn check_desc(rep: &Report, c: &DescCase, thorough: bool, cen: &mut Census) {
     let form = script_key_form(c);
     for w in worlds(&c.keys, &hl, &c.afters, &c.olders, thorough) {
         let spend = make_spend(c.spk.clone(), w.locktime, w.sequence);
-        let sat = WorldSat { world: &w, spend: &spend, sign: &c.sign, schnorr_all: false, lie_locks: false };
+        let sat = WorldSat { world: &w, spend: &spend, sign: &c.sign, schnorr_all: false, lie_locks: false, cap: crate::world::SignCap::All };
         for mall in [false, true] {
             let (witness, script_sig) = match guard(|| if mall { c.desc.get_satisfaction_mall(&sat) } else { c.desc.get_satisfaction(&sat) }) {
                 Ok(Ok(x)) => x,
@@ -259,7 +259,7 @@ fn check_desc(rep: &Report, c: &DescCase, thorough: bool, cen: &mut Census) {
             // a satisfaction fabricated by a caller that ignores the time locks of this very
             // transaction: valid signatures, possibly unmet CLTV / CSV
             if !c.afters.is_empty() || !c.olders.is_empty() {
-                let liar = WorldSat { world: &w, spend: &spend, sign: &c.sign, schnorr_all: false, lie_locks: true };
+                let liar = WorldSat { world: &w, spend: &spend, sign: &c.sign, schnorr_all: false, lie_locks: true, cap: crate::world::SignCap::All };
                 if let Ok(Ok((w2, s2))) = guard(|| if mall { c.desc.get_satisfaction_mall(&liar) } else { c.desc.get_satisfaction(&liar) }) {
                     if w2 != witness || s2 != script_sig {
                         bump(cen, "candidates_with_ignored_timelocks");
